@@ -273,13 +273,21 @@ def decSysTime (b : Bytes) : Dec HMS :=
     let h := digitsVal (s.take 2); let m := digitsVal ((s.drop 2).take 2); let sec := digitsVal ((s.drop 4).take 2)
     if h < 24 && m < 60 && sec < 60 then .val ⟨h, m, sec⟩ else .err
 
-/-- `maxMinutes`: the bound in `minutes > N` (T3g fact; 59 after the repair of D5) -/
-def decHHmm (maxMinutes : Nat) (b : Bytes) : Dec HM :=
+/-- the numeric bounds in an HH:mm parser: `hours > maxHours`, `minutes > maxMinutes`,
+    `hours == 24 && minutes != 0` (T3g facts, one record per parser) -/
+structure HHmmBounds where
+  maxHours : Nat
+  maxMinutes : Nat
+  rule24 : Bool
+deriving DecidableEq, Repr
+
+def decHHmm (B : HHmmBounds) (b : Bytes) : Dec HM :=
   match BCD.decode T b with
   | none => .err
   | some s =>
     let h := digitsVal (s.take 2); let m := digitsVal ((s.drop 2).take 2)
-    if h > 24 then .err else if m > maxMinutes then .err else if h = 24 ∧ m ≠ 0 then .err
+    if h > B.maxHours then .err else if m > B.maxMinutes then .err
+    else if B.rule24 ∧ h = 24 ∧ m ≠ 0 then .err
     else .val ⟨h, m⟩
 
 end Uhppote.Model
@@ -302,20 +310,22 @@ def parseDigits (base : Nat) : List Char → Nat → Option Nat
     | some d => if d < base then parseDigits base r (acc * base + d) else none
     | none => none
 
-def parseUint8 (base : Nat) (s : String) : Option Nat :=
-  let cs := s.toList
-  let r : Option Nat :=
-    if cs.isEmpty then none
-    else if base = 0 then
-      match cs with
-      | '0' :: 'x' :: r | '0' :: 'X' :: r => if r.isEmpty then none else parseDigits 16 r 0
-      | '0' :: 'b' :: r | '0' :: 'B' :: r => if r.isEmpty then none else parseDigits 2 r 0
-      | '0' :: r => if r.isEmpty then some 0 else parseDigits 8 r 0
-      | _ => parseDigits 10 cs 0
-    else parseDigits base cs 0
-  match r with
+/-- base 0: the prefix decides (`0x` hex, `0b` binary, leading `0` octal, otherwise decimal) -/
+def parseBase0 (cs : List Char) : Option Nat :=
+  match cs with
+  | '0' :: 'x' :: r | '0' :: 'X' :: r => if r.isEmpty then none else parseDigits 16 r 0
+  | '0' :: 'b' :: r | '0' :: 'B' :: r => if r.isEmpty then none else parseDigits 2 r 0
+  | '0' :: r => if r.isEmpty then some 0 else parseDigits 8 r 0
+  | _ => parseDigits 10 cs 0
+
+def fits8 : Option Nat → Option Nat
   | some n => if n < 256 then some n else none
   | none => none
+
+def parseUint8 (base : Nat) (s : String) : Option Nat :=
+  if s.toList.isEmpty then none
+  else if base = 0 then fits8 (parseBase0 s.toList)
+  else fits8 (parseDigits base s.toList 0)
 
 /-! ## layouts -/
 
@@ -398,27 +408,43 @@ def marshalLeaf (buf : Bytes) : Leaf → Val → Outcome Bytes
       | some none => .ok buf                  -- MarshalUT0311L0x error: ignored, field left as is
       | some (some b) => copyAt buf off b
     else
-      match k, v with
-      | .u8, .u8 x =>
+      match k with
+      | .u8 =>
         (match tag with
          | some t => (match parseUint8 F.byteValueBase t with
                       | none => .err
                       | some n => setAt buf off (UInt8.ofNat n))
-         | none => setAt buf off x)
-      | .u16, .u16 x =>
-        if off + F.u16WriteSlice ≤ buf.length ∧ 2 ≤ F.u16WriteSlice then
-          .ok (writeAt buf off (if F.littleEndian then le16 x else be16 x)) else .panic
-      | .u32, .u32 x =>
-        if off + F.u32WriteSlice ≤ buf.length ∧ 4 ≤ F.u32WriteSlice then
-          .ok (writeAt buf off (if F.littleEndian then le32 x else (le32 x).reverse)) else .panic
-      | .bool, .bool x => setAt buf off (UInt8.ofNat (if x then F.boolTrue else F.boolFalse))
-      | .ipv4, .ip bs =>
-        if off + 4 ≤ buf.length then
-          .ok (writeAt buf off (((to4 bs).getD []).take 4)) else .panic
-      | .addrPort, .addrPort (.v4 a b c d p) => copyAt buf off ([a, b, c, d] ++ le16 p)
-      | .addrPort, .addrPort .other => .err
-      | .mac, .mac bs => if off + 6 ≤ buf.length then .ok (writeAt buf off (bs.take 6)) else .panic
-      | _, _ => .ok buf
+         | none => (match v with | .u8 x => setAt buf off x | _ => .ok buf))
+      | .u16 =>
+        (match v with
+         | .u16 x =>
+           if off + F.u16WriteSlice ≤ buf.length ∧ 2 ≤ F.u16WriteSlice then
+             .ok (writeAt buf off (if F.littleEndian then le16 x else be16 x)) else .panic
+         | _ => .ok buf)
+      | .u32 =>
+        (match v with
+         | .u32 x =>
+           if off + F.u32WriteSlice ≤ buf.length ∧ 4 ≤ F.u32WriteSlice then
+             .ok (writeAt buf off (if F.littleEndian then le32 x else (le32 x).reverse)) else .panic
+         | _ => .ok buf)
+      | .bool =>
+        (match v with
+         | .bool x => setAt buf off (UInt8.ofNat (if x then F.boolTrue else F.boolFalse))
+         | _ => .ok buf)
+      | .ipv4 =>
+        (match v with
+         | .ip bs => if off + 4 ≤ buf.length then .ok (writeAt buf off (((to4 bs).getD []).take 4)) else .panic
+         | _ => .ok buf)
+      | .addrPort =>
+        (match v with
+         | .addrPort (.v4 a b c d p) => copyAt buf off ([a, b, c, d] ++ le16 p)
+         | .addrPort .other => .err
+         | _ => .ok buf)
+      | .mac =>
+        (match v with
+         | .mac bs => if off + 6 ≤ buf.length then .ok (writeAt buf off (bs.take 6)) else .panic
+         | _ => .ok buf)
+      | _ => .ok buf
   | _, _ => .ok buf
 
 def marshalLeaves : List Leaf → List Val → Bytes → Outcome Bytes
@@ -448,7 +474,7 @@ def zeroVal : Leaf → Val
     | .hhmmPtr => .hhmmPtr none | .pin => .u32 0 | .version => .u16 0 | .macAddress => .mac []
 
 /-- the decoders behind `UnmarshalUT0311L0x`, given exactly the field's bytes -/
-def decField (maxMinutes : Nat) : Kind → Bytes → Outcome Val
+def decField (B : HHmmBounds) : Kind → Bytes → Outcome Val
   | .serial, b => .ok (.u32 (unle32 b))
   | .date, b => (match decDate T b with | .val d => .ok (.date d) | .err => .err)
   | .datePtr, b => .ok (.datePtr (decDatePtr T b))
@@ -456,8 +482,8 @@ def decField (maxMinutes : Nat) : Kind → Bytes → Outcome Val
   | .dateTimePtr, b => .ok (.dateTimePtr (decDateTimePtr T b))
   | .sysDate, b => (match decSysDate T b with | .val d => .ok (.sysDate d) | .err => .err)
   | .sysTime, b => (match decSysTime T b with | .val t => .ok (.sysTime t) | .err => .err)
-  | .hhmm, b => (match decHHmm T maxMinutes b with | .val t => .ok (.hhmm t) | .err => .err)
-  | .hhmmPtr, b => (match decHHmm T maxMinutes b with | .val t => .ok (.hhmmPtr (some t)) | .err => .ok (.hhmmPtr none))
+  | .hhmm, b => (match decHHmm T B b with | .val t => .ok (.hhmm t) | .err => .err)
+  | .hhmmPtr, b => (match decHHmm T B b with | .val t => .ok (.hhmmPtr (some t)) | .err => .ok (.hhmmPtr none))
   | .pin, b => .ok (.u32 (unle32 (b ++ [0])))
   | .version, b => .ok (.u16 (unbe16 b))
   | .macAddress, b => .ok (.mac b)
@@ -475,7 +501,19 @@ def decField (maxMinutes : Nat) : Kind → Bytes → Outcome Val
   | .mac, b => .ok (.mac b)
   | .u8, b => (match b with | [x] => .ok (.u8 x) | _ => .err)
 
-def unmarshalLeaf (maxMinutes : Nat) (bytes : Bytes) : Leaf → Outcome Val
+/-- width of the slice expression the reader of kind `k` evaluates -/
+def readWidth : Kind → Nat
+  | .u16 => F.u16ReadSlice
+  | .u32 => F.u32ReadSlice
+  | k => k.width
+
+/-- the fixed value a `value:` tag demands of a byte field: `none` = the tag text does not parse,
+    `some none` = no constraint -/
+def fixedValue : Kind → Option String → Option (Option Nat)
+  | .u8, some t => (match parseUint8 F.byteValueBase t with | none => none | some n => some (some n))
+  | _, _ => some none
+
+def unmarshalLeaf (B : HHmmBounds) (bytes : Bytes) : Leaf → Outcome Val
   | .skip => .ok (.u32 0)   -- an untagged field keeps its zero value (uint32 in generated layouts)
   | .som _ => .ok (.u8 0)                       -- never read back
   | .msgType tag =>
@@ -487,57 +525,54 @@ def unmarshalLeaf (maxMinutes : Nat) (bytes : Bytes) : Leaf → Outcome Val
      | some e => if (bytes.getD 1 0).toNat ≠ e then .err else .ok (.u8 (bytes.getD 1 0)))
   | .at off k tag =>
     -- `value:` on a byte field is parsed before the byte is indexed
-    match (match k, tag with
-           | .u8, some t => (match parseUint8 F.byteValueBase t with | none => (none : Option (Option Nat)) | some n => some (some n))
-           | _, _ => some none) with
+    match fixedValue F k tag with
     | none => .err
     | some fixed =>
-      let w := match k with | .u16 => F.u16ReadSlice | .u32 => F.u32ReadSlice | _ => k.width
-      if off + w ≤ bytes.length ∧ k.width ≤ w then
+      if off + readWidth F k ≤ bytes.length ∧ k.width ≤ readWidth F k then
         match fixed with
         | some n => if (bytes.getD off 0).toNat ≠ n then .err else .ok (.u8 (bytes.getD off 0))
-        | none => decField F T maxMinutes k (readAt bytes off k.width)
+        | none => decField F T B k (readAt bytes off k.width)
       else .panic
 
 /-- sequential walk; returns the values decoded so far together with the outcome (needed for the
     swallowed embedded error, where a partially filled struct is kept) -/
-def unmarshalLeaves (maxMinutes : Nat) (bytes : Bytes) : List Leaf → List Val × Outcome Unit
+def unmarshalLeaves (B : HHmmBounds) (bytes : Bytes) : List Leaf → List Val × Outcome Unit
   | [] => ([], .ok ())
   | l :: ls =>
-    match unmarshalLeaf F T maxMinutes bytes l with
+    match unmarshalLeaf F T B bytes l with
     | .ok v =>
-      let (vs, o) := unmarshalLeaves maxMinutes bytes ls
+      let (vs, o) := unmarshalLeaves B bytes ls
       (v :: vs, o)
     | .err => ((l :: ls).map zeroVal, .err)
     | .panic => ((l :: ls).map zeroVal, .panic)
 
-def unmarshalFields (maxMinutes : Nat) (bytes : Bytes) : List Field → List Val × Outcome Unit
+def unmarshalFields (B : HHmmBounds) (bytes : Bytes) : List Field → List Val × Outcome Unit
   | [] => ([], .ok ())
   | .leaf _ l :: fs =>
-    (match unmarshalLeaf F T maxMinutes bytes l with
+    (match unmarshalLeaf F T B bytes l with
      | .ok v =>
-       let (vs, o) := unmarshalFields maxMinutes bytes fs
+       let (vs, o) := unmarshalFields B bytes fs
        (v :: vs, o)
      | .err => ((zeroVal l) :: (Layout.leaves fs).map zeroVal, .err)
      | .panic => ((zeroVal l) :: (Layout.leaves fs).map zeroVal, .panic))
   | .embed _ ls :: fs =>
-    (match unmarshalLeaves F T maxMinutes bytes (ls.map (·.2)) with
+    (match unmarshalLeaves F T B bytes (ls.map (·.2)) with
      | (vs, .ok ()) =>
-       let (ws, o) := unmarshalFields maxMinutes bytes fs
+       let (ws, o) := unmarshalFields B bytes fs
        (vs ++ ws, o)
      | (vs, .err) =>
        if F.embeddedErrorReturned then (vs ++ (Layout.leaves fs).map zeroVal, .err)
        else
-         let (ws, o) := unmarshalFields maxMinutes bytes fs
+         let (ws, o) := unmarshalFields B bytes fs
          (vs ++ ws, o)
      | (vs, .panic) => (vs ++ (Layout.leaves fs).map zeroVal, .panic))
 
 /-- `unmarshal(bytes, s)` -/
-def unmarshal (maxMinutes : Nat) (L : Layout) (bytes : Bytes) : Outcome (List Val) :=
+def unmarshal (B : HHmmBounds) (L : Layout) (bytes : Bytes) : Outcome (List Val) :=
   if bytes.length ≠ F.lenCheck then .err
   else if (bytes.getD 0 0).toNat ≠ F.som ∧ ((bytes.getD 0 0).toNat ≠ F.somAlt ∨ (bytes.getD 1 0).toNat ≠ F.somAltCode) then .err
   else
-    match unmarshalFields F T maxMinutes bytes L with
+    match unmarshalFields F T B bytes L with
     | (vs, .ok ()) => .ok vs
     | (_, .err) => .err
     | (_, .panic) => .panic
